@@ -95,7 +95,8 @@ static std::string consistent(const upa::url& u) {
     const upa::string_view views[] = { u.href(), u.protocol(), u.username(), u.password(), u.host(), u.hostname(), u.port(), u.path(), u.pathname(), u.search(), u.hash() };
     int k = 0;
     for (const auto& v : views) {
-        if (v.size() && (v.data() < norm.data() || v.data() + v.size() > norm.data() + n)) return "getter " + std::to_string(k) + " returns a view outside the serialization";
+        // sizes are compared, not pointer sums (a wrapped-around size must not wrap the test as well)
+        if (v.size() && (v.size() > n || v.data() < norm.data() || static_cast<std::size_t>(v.data() - norm.data()) > n - v.size())) return "getter " + std::to_string(k) + " returns a view outside the serialization (size " + std::to_string(v.size()) + ")";
         ++k;
     }
     return "";
@@ -228,6 +229,7 @@ int main(int argc, char** argv) {
                 } catch (const std::bad_alloc&) { threw = true; } catch (const std::length_error&) { threw = true; }
             }
             const bool fired = g_fired;
+            if (threw) { const std::string c0 = consistent(*x); if (!c0.empty()) std::cout << "FAULT-VIOLATION op=set [" << sc.setter << " on " << sc.url << "] n=" << n << " outcome=bad_alloc: target corrupted: " << c0 << "\n"; }
             if (threw) { ++fail_states; std::cout << "FAILSTATE set " << sc.setter << " 8 " << units_of(sc.value) << " " << n << " | " << before << " | " << raw_state(*x) << "\n"; }
             delete x;
             if (!fired) break;
